@@ -2,6 +2,7 @@
 from .. import astq, structure as S
 from ..engines import ExcEngine
 from ..facts import AnalysisBroken, walk
+from . import common
 
 EXPLANATION = (
     "Decides the domain / dispatch / internal-consistency clauses of the opcode loop, not the per-opcode value semantics. "
@@ -324,13 +325,7 @@ def run(ctx, anchors=None):
     # ---- R01.5
     sal = astq.aliases(stepper)
     scfg = stepper.cfg()
-    switches = []
-    for n in stepper.nodes():
-        lhs = None
-        if n["k"] == "opcall" and n["op"] == "=" and len(n["args"]) == 2:
-            lhs = n["args"][0]
-        if lhs is not None and any(p[1:] == ("script",) for p in astq.paths(lhs, sal)):
-            switches.append(n)
+    switches = common.script_switches(prog, stepper)
     ctx.floor("R01.5", len(switches), 2, "script switches in the session stepper")
     bal = []
     for n in stepper.nodes():
@@ -340,17 +335,7 @@ def run(ctx, anchors=None):
     rej = [x for x in stepper.nodes() if x["k"] == "call" and x.get("n") == "set_error"]
 
     def writes_field(fld):
-        out = []
-        for n in stepper.nodes():
-            lhss = []
-            if n["k"] == "opcall" and n["op"] == "=":
-                lhss.append(n["args"][0])
-            elif n["k"] == "assign":
-                lhss.append(n["lhs"])
-            for l in lhss:
-                if any(p[1:] == (fld,) for p in astq.paths(l, sal)):
-                    out.append(n)
-        return out
+        return common.field_writers(prog, stepper, fld)
     for swn in switches:
         ctx.site()
         key = astq.estr(swn)[:40]
@@ -373,7 +358,7 @@ def run(ctx, anchors=None):
                  "the script switch `%s` is not preceded by a rejecting vfExec.empty() test: a conditional opened in one script can be closed by the next" % key)
         for fld in ("pc", "pend", "pbegincodehash", "nOpCount"):
             ws = writes_field(fld)
-            ctx.inst(bool(ws) and scfg.must_pass_after(swn, ws), "R01.5", "reinit:%s:%s" % (fld, key), stepper.loc(swn),
+            ctx.inst(bool(ws) and (any(w is swn for w in ws) or scfg.must_pass_after(swn, ws)), "R01.5", "reinit:%s:%s" % (fld, key), stepper.loc(swn),
                      "%s is re-initialised after the switch on every path" % fld,
                      "after the script switch `%s` the stepper can return without re-initialising %s" % (key, fld))
 
